@@ -43,15 +43,21 @@ pub const NEWCOMER_IN_RING: usize = 1 << 20;
 /// pass newcomer -> successor (the successor changes to an address that may lie behind the
 /// current sweep position).
 pub const NEWCOMER_WITNESSED: usize = 1 << 21;
+/// Flag: the newcomer answers every poll with 'master ready' but never takes the token: it is
+/// adopted, dropped after three passes, and the sweep has to go on behind it.
+pub const NEWCOMER_ZOMBIE: usize = 1 << 22;
 
 pub fn gap_case_full(ts: u8, ns: u8, hsa: u8, g: u8, newcomer: Option<(u8, usize)>, lose_after: Option<usize>, passive: &[u8], obs: &mut Obs) -> CaseResult {
     let newcomer_state = if newcomer.map(|n| n.1 & NEWCOMER_IN_RING != 0).unwrap_or(false) { 3 } else { 2 };
     let newcomer_witnessed = newcomer.map(|n| n.1 & NEWCOMER_WITNESSED != 0).unwrap_or(false);
-    let newcomer = newcomer.map(|(a, after)| (a, after & !(NEWCOMER_IN_RING | NEWCOMER_WITNESSED)));
+    let newcomer_zombie = newcomer.map(|n| n.1 & NEWCOMER_ZOMBIE != 0).unwrap_or(false);
+    let newcomer = newcomer.map(|(a, after)| (a, after & !(NEWCOMER_IN_RING | NEWCOMER_WITNESSED | NEWCOMER_ZOMBIE)));
+    let mut zombie_passes = 0;
+    let mut zombie_removed_at: Option<usize> = None;
     let mut w = World::new(ts, hsa, Baudrate::B1500000, 300, g, None);
     w.step_us = 13;
     let gap0 = gap_set(ts, ns, hsa);
-    let want_visits = (gap0.len() + g as usize + 4) * 3 + 4;
+    let want_visits = (gap0.len() + g as usize + 4) * if newcomer_zombie { 5 } else { 3 } + 4;
     let mut handled = 0usize;
     let mut pending: Vec<(i64, Vec<u8>)> = vec![];
     // token visits: polled addresses per visit, with the NS valid during that visit
@@ -140,10 +146,12 @@ pub fn gap_case_full(ts: u8, ns: u8, hsa: u8, g: u8, newcomer: Option<(u8, usize
                         pending.push((end + w.bit_us(12), status_resp(ts, cur_ns, if established && !reclaiming { 3 } else { 2 })));
                     } else if passive.contains(&da) && Some(da) != newcomer.map(|n| n.0) {
                         pending.push((end + w.bit_us(12), status_resp(ts, da, 0)));
-                    } else if newcomer_active && !newcomer_witnessed && Some(da) == newcomer.map(|n| n.0) && da != cur_ns {
+                    } else if newcomer_active && !newcomer_witnessed && (!newcomer_zombie || claim_ns.is_some()) && Some(da) == newcomer.map(|n| n.0) && da != cur_ns {
                         // the newcomer answers as a ready master: it must become the successor
                         pending.push((end + w.bit_us(12), status_resp(ts, da, newcomer_state)));
-                        newcomer_joined_at = Some(visits.len());
+                        if newcomer_joined_at.is_none() {
+                            newcomer_joined_at = Some(visits.len());
+                        }
                         cur_ns = da;
                     }
                 }
@@ -185,6 +193,20 @@ pub fn gap_case_full(ts: u8, ns: u8, hsa: u8, g: u8, newcomer: Option<(u8, usize
                             let b = w.bus.0.borrow();
                             let tail: String = b.trace.iter().rev().take(14).rev().map(|r| format!("\n  {} ns node{} {}", r.start_ns, r.sender, crate::props::c09::hex(&r.bytes))).collect();
                             fail!("token-kept", "token passed to itself although the successor #{cur_ns} is known and alive (TS={ts} NS={ns} HSA={hsa} G={g} newcomer={:?}){}", newcomer, tail);
+                        }
+                    } else if newcomer_zombie && da == cur_ns && Some(da) == newcomer.map(|n| n.0) {
+                        // the zombie never takes the token: three passes, then it is dropped and the
+                        // token goes to the old successor
+                        if let Some(c) = cur.take() {
+                            visits.push((c, cur_ns));
+                        }
+                        zombie_passes += 1;
+                        if zombie_passes == 3 {
+                            zombie_passes = 0;
+                            cur_ns = ns;
+                            if zombie_removed_at.is_none() {
+                                zombie_removed_at = Some(visits.len());
+                            }
                         }
                     } else if da == cur_ns {
                         established = true;
@@ -261,6 +283,20 @@ pub fn gap_case_full(ts: u8, ns: u8, hsa: u8, g: u8, newcomer: Option<(u8, usize
             let gap_before = gap_set(ts, ns, hsa);
             ensure!(gap.contains(a) || gap_before.contains(a), "outside-gap", "polled #{a} which is not strictly between TS #{ts} and NS #{vns} (GAP {:?}, HSA {hsa})", gap);
         }
+    }
+    if newcomer_zombie {
+        // the sweep goes on behind the dropped station: every GAP address is polled within a bounded
+        // number of visits after the first removal
+        if let Some(k) = zombie_removed_at {
+            let budget = 2 * (gap0.len() + g as usize + 4);
+            let polled: std::collections::BTreeSet<u8> = flat.iter().skip(k).take(budget).filter_map(|x| x.0).collect();
+            if flat.len() >= k + budget {
+                let missing: Vec<u8> = gap0.iter().copied().filter(|a| !polled.contains(a)).collect();
+                ensure!(missing.is_empty(), "gap-not-swept-behind-dropped-station", "after #{} (answers 'ready', never takes the token) was dropped the GAP addresses {:?} were not polled within {} token visits (polled: {:?}; TS={ts} NS={ns} HSA={hsa} G={g})", newcomer.unwrap().0, missing, budget, polled);
+                obs.label("zombie-dropped-and-sweep-continued");
+            }
+        }
+        return Ok(());
     }
     // sweeps (judged while the successor is unchanged)
     let stable: Vec<Option<u8>> = match newcomer_joined_at.or(reclaimed_at) {
@@ -525,6 +561,78 @@ fn status_case(t: &mut Tape, obs: &mut Obs) -> CaseResult {
     Ok(())
 }
 
+/// The reply to a GAP poll comes from another address than the polled one (a slow station whose
+/// reply to the previous poll arrives now, a station with a wrong idea of its address): the polled
+/// address did not report anything and must not become the successor.
+/// `i`: bits 0..2 which poll (0..=2 during the scan after the claim, 3..=5 regular polls), bit 3: the
+/// foreign reply reports 'master ready' / 'master in ring', bit 4: its source is the address polled
+/// just before / an address behind the polled one.
+fn foreign_reply_case(i: u64, obs: &mut Obs) -> CaseResult {
+    const TS: u8 = 4;
+    const SLOT: i64 = 300;
+    let which = i % 6;
+    let state = if i & 8 == 0 { 2 } else { 3 };
+    let before = i & 16 == 0;
+    let mut w = World::new(TS, 12, Baudrate::B1500000, SLOT as u16, 1, None);
+    let mut seen = 0usize;
+    let (mut scan_polls, mut regular_polls, mut own_tokens) = (0u64, 0u64, 0u64);
+    let mut injected: Option<(u8, u8, i64)> = None; // polled, source, time
+    let t_lost = w.bit_us((6 + 2 * i64::from(TS)) * SLOT);
+    let t_end = 400 * w.bit_us(SLOT) + 60 * t_lost;
+    while w.now < t_end {
+        w.step(7);
+        let recs = w.sent_since(seen);
+        seen = w.trace_len();
+        for r in recs {
+            if r.sender != 0 {
+                continue;
+            }
+            match rc::decode_one(&r.bytes) {
+                Some(RefFrame::Token { da, .. }) => {
+                    own_tokens += 1;
+                    if let Some((polled, src, _)) = injected {
+                        ensure!(da != polled, "successor-never-reported", "station #{TS} passes the token to #{polled}, which never answered: the only reply to that poll came from #{src}");
+                    }
+                }
+                Some(RefFrame::Data { fc: 0x49, da, dsap: None, ssap: None, .. }) if injected.is_none() => {
+                    let idx = if own_tokens > 2 {
+                        regular_polls += 1;
+                        3 + (regular_polls - 1)
+                    } else {
+                        scan_polls += 1;
+                        if scan_polls <= 3 { scan_polls - 1 } else { u64::MAX }
+                    };
+                    if idx == which {
+                        let end = (r.end_ns + 999) / 1000;
+                        let src = if before { (da + 11) % 12 } else { (da + 2) % 12 };
+                        let src = if src == TS { (src + 11) % 12 } else { src };
+                        while w.now < end + w.bit_us(40) {
+                            w.step(7);
+                        }
+                        w.bus.inject(ENV, w.now, &status_resp(TS, src, state));
+                        injected = Some((da, src, w.now));
+                        seen = w.trace_len();
+                    }
+                }
+                _ => {}
+            }
+        }
+        if let Some((_, _, at)) = injected {
+            if w.now > at + 6 * t_lost {
+                break;
+            }
+        }
+    }
+    if injected.is_none() {
+        obs.label("poll-not-reached");
+        return Ok(());
+    }
+    obs.label(if which < 3 { "during-claim-scan" } else { "during-regular-poll" });
+    obs.nontrivial(i);
+    obs.sample(|| json!({"polled": injected.map(|x| x.0), "reply_from": injected.map(|x| x.1), "reports": if state == 2 { "master ready" } else { "master in ring" }}));
+    Ok(())
+}
+
 fn gap_index_case(i: u64, gsel: u64, obs: &mut Obs) -> CaseResult {
     let (ts, ns, hsa) = triple_by_index(i / 2);
     if hsa < 2 {
@@ -559,8 +667,8 @@ pub fn property() -> Property {
                 }
                 let nc = *t.pick(&gap);
                 let after = t.below((gap.len() + g as usize + 3) as u64) as usize;
-                const HOW: [&str; 3] = ["answers the poll: master ready", "answers the poll: master in ring", "never answers; a token pass newcomer -> successor is witnessed"];
-                let mode = t.weighted(&[3, 2, 2]);
+                const HOW: [&str; 4] = ["answers the poll: master ready", "answers the poll: master in ring", "never answers; a token pass newcomer -> successor is witnessed", "answers every poll with 'master ready' but never takes the token"];
+                let mode = t.weighted(&[3, 2, 2, 2]);
                 // without a partner there is nobody whose token pass could be witnessed
                 let mode = if mode == 2 && ns == ts { 0 } else { mode };
                 if mode == 1 {
@@ -568,8 +676,9 @@ pub fn property() -> Property {
                 }
                 obs.nontrivial(fingerprint(&(ts, ns, hsa, g, nc, after, mode)));
                 obs.sample(|| json!({"ts": ts, "ns": ns, "hsa": hsa, "gap_factor": g, "newcomer": nc, "appears_after_visits": after, "how": HOW[mode]}));
-                gap_case(ts, ns, hsa, g, Some((nc, after | [0, NEWCOMER_IN_RING, NEWCOMER_WITNESSED][mode])), obs)
+                gap_case(ts, ns, hsa, g, Some((nc, after | [0, NEWCOMER_IN_RING, NEWCOMER_WITNESSED, NEWCOMER_ZOMBIE][mode])), obs)
             }),
+            SubCheck::index("foreign_reply", "the reply to a GAP poll carries another source address than the polled one: the polled address must not become the successor (24 constructed scenarios)", foreign_reply_case),
             SubCheck::tape("gap_under_load", "rings whose stations run applications that never decline, with a small target rotation time: every window of G+4 consecutive token visits contains a GAP poll", crate::props::traffic::gap_under_load_case),
             SubCheck::tape("gap_passive", "passive stations (DP slaves) inside the GAP answer the polls with 'slave': same sweep rules, one poll per visit, nobody adopted", |t, obs| {
                 let hsa = 3 + t.below(30) as u8;
@@ -624,6 +733,7 @@ pub fn property() -> Property {
             Tier::Quick => vec![
                 Step::Enumerate { kind: "gap_triples", count: 2 * triples_up_to(40) },
                 Step::Pbt { kind: "gap_newcomer", cases: 3000, max_len: 16 },
+                Step::Enumerate { kind: "foreign_reply", count: 24 },
                 Step::Pbt { kind: "gap_under_load", cases: 400, max_len: 120 },
                 Step::Pbt { kind: "gap_passive", cases: 3000, max_len: 48 },
                 Step::Pbt { kind: "gap_reclaim", cases: 3000, max_len: 48 },
@@ -632,6 +742,7 @@ pub fn property() -> Property {
             Tier::Thorough => vec![
                 Step::Enumerate { kind: "gap_triples", count: 2 * triples_up_to(126) },
                 Step::Pbt { kind: "gap_newcomer", cases: 20_000, max_len: 16 },
+                Step::Enumerate { kind: "foreign_reply", count: 24 },
                 Step::Pbt { kind: "gap_under_load", cases: 4000, max_len: 120 },
                 Step::Pbt { kind: "gap_passive", cases: 20_000, max_len: 48 },
                 Step::Pbt { kind: "gap_reclaim", cases: 20_000, max_len: 48 },
